@@ -172,22 +172,37 @@ def run_accessor(c, args):
     # the smoothers take nodata as an argument; the cube carries an unrelated (conflicting) nodata attribute,
     # equal to one of its valid observations: the argument, also a falsy one, is what counts
     valid = [float(t) for t in y.tolist() if np.isfinite(t) and t != nd]
-    da = xr.DataArray(y.reshape(shape), dims=dims, attrs={"nodata": (valid[0] if valid else float(nd) + 1.0 if np.isfinite(nd) else -1.0)})
+    attrs = {"nodata": (valid[0] if valid else float(nd) + 1.0 if np.isfinite(nd) else -1.0)}
+    pix = (0, 0)
+    if v == "vplc":
+        # per-pixel parameter raster: the pixel sits at (y=0, x=1) of a 2 x 2 cube whose mirror pixel (1, 0) carries an lc of
+        # the OTHER grid class, and the raster is handed over in (x, y) order - it must reach the pixel by dimension NAME
+        pix = (0, 1)
+        cube = np.empty((len(y), 2, 2), dtype=y.dtype)
+        for i in range(2):
+            for j in range(2):
+                cube[:, i, j] = y if (i, j) == pix else np.where(y == nd, nd, np.roll(y, 1 + i + 2 * j))
+        da = xr.DataArray(cube, dims=("time", "y", "x"), attrs=attrs).transpose(*dims)
+        lcv = args[3]
+        other = 0.1 if (np.isfinite(lcv) and lcv > 0.5) else 0.9
+        lcr = np.array([[other, lcv], [other, 0.5]], dtype="float64")          # [y, x]
+        lc_raster = xr.DataArray(lcr.T.copy(), dims=("x", "y"))
+    else:
+        da = xr.DataArray(y.reshape(shape), dims=dims, attrs=attrs)
     if c.get("dask"):
         da = da.chunk({d: 1 for d in dims if d != "time"})
     if v in ("v", "vp"):
         r = da.hdc.whit.whitsvc(nd, srange=args[-1], p=(args[2] if v == "vp" else None))
     elif v == "vplc":
-        lc = xr.DataArray(np.array([[args[3]]]), dims=[d for d in dims if d != "time"])
-        r = da.hdc.whit.whitsvc(nd, lc=lc, p=args[2])
+        r = da.hdc.whit.whitsvc(nd, lc=lc_raster, p=args[2])
     elif v == "wcv":
         r = da.hdc.whit.whitswcv(nd, srange=args[2], robust=args[3])
     elif v == "wcvp":
         r = da.hdc.whit.whitswcv(nd, srange=args[3], p=args[2], robust=args[4])
     else:
         raise KeyError(v)
-    band = np.asarray(r["band"].transpose(..., "time")).reshape(-1)
-    sg = np.asarray(r["sgrid"]).reshape(-1)[0]
+    band = np.asarray(r["band"].transpose("y", "x", "time"))[pix[0], pix[1]].reshape(-1)
+    sg = np.asarray(r["sgrid"].transpose("y", "x"))[pix[0], pix[1]]
     ok = str(r["band"].dtype) == "int16" and str(r["sgrid"].dtype) == "float32"
     with np.errstate(over="ignore"):
         lopt = float(10.0 ** np.float64(sg)) if np.isfinite(sg) else 0.0
